@@ -106,6 +106,30 @@ Definition migrate_v1_mstate (position minted rem rem_prev : Z) : option (Z * Z 
 (* x/cfedistributor/migrations/v2/store.go: the burn state loses its account, everything else is copied *)
 Definition migrate_v1_dstate (burn : bool) (acct_key : Z) : Z := if burn then 0 else acct_key.   (* 0: no account *)
 
+(* the whole state store, x/cfedistributor/migrations/v2/store.go MigrateStore: every stored v1 state is read (in store order) and
+   deleted, then written again under the key of the new state: Type-Id of its account when it has one with a non-empty id and
+   type, the burn key otherwise; a later state with the same new key replaces an earlier one; State.Validate refuses negative
+   amounts (the upgrade aborts); a non-burn state without account dereferences nil *)
+Record v1dstate := { vd_burn : bool; vd_acct : option Z;   (* rank of the account's Type-Id key; None: no account *)
+                     vd_keyable : bool;                      (* id and type both non-empty *)
+                     vd_coins : list (Z * Z) }.
+Definition v1d_newkey (bkey : Z) (s : v1dstate) : Z :=
+  if vd_burn s then bkey else match vd_acct s with Some k => if vd_keyable s then k else bkey | None => bkey end.
+Fixpoint dkset {A} (k : Z) (v : A) (l : list (Z * A)) : list (Z * A) :=
+  match l with
+  | [] => [(k, v)]
+  | (k', v') :: t => if k <? k' then (k, v) :: l else if k =? k' then (k, v) :: t else (k', v') :: dkset k v t
+  end.
+Fixpoint migrate_v1_dstates (bkey : Z) (l : list v1dstate) (acc : list (Z * (bool * bool * list (Z * Z))))
+  : outcome (list (Z * (bool * bool * list (Z * Z)))) :=
+  match l with
+  | [] => Ok acc
+  | s :: t =>
+      if negb (vd_burn s) && match vd_acct s with None => true | Some _ => false end then Panic
+      else if existsb (fun c => snd c <? 0) (vd_coins s) then Err
+      else migrate_v1_dstates bkey t (dkset (v1d_newkey bkey s) (vd_burn s, negb (vd_burn s), vd_coins s) acc)
+  end.
+
 (* ------------------------------------------------------------------ comparison with the implementation *)
 Definition minter_code (m : minter) : list Z :=
   [m_seq m; match m_end m with Some e => e | None => -1 end] ++
@@ -120,7 +144,8 @@ Inductive gcase_body :=
 | GPercent (pct : Z)                          (* expected: [share] *)
 | GPeriodic (mp ma rpl f : Z)                 (* expected: [amount; step; mult] *)
 | GV1Pools (ps : list v1pool)                 (* expected: per pool [locked; withdrawn; sent; currently locked after] *)
-| GV1MState (position minted rem rem_prev : Z). (* expected: [1; seq; minted; rem; rem_prev] or [0] *)
+| GV1MState (position minted rem rem_prev : Z)  (* expected: [1; seq; minted; rem; rem_prev] or [0] *)
+| GV1DStates (bkey : Z) (denoms : list Z) (l : list v1dstate).  (* expected: [1; n; per new state: key; burn; account present; amount per denom] | [0] | [-1] *)
 
 Record gcase := { gc_id : Z; gc_body : gcase_body; gc_expected : list Z }.
 
@@ -133,6 +158,13 @@ Definition gcase_got (c : gcase) : list Z :=
   | GPeriodic mp ma rpl f => match conv_periodic mp ma rpl f with CExp a s mu => [a; s; mu] | _ => [] end
   | GV1Pools ps => flat_map (fun p => let '(l, w, se) := migrate_v1_pool p in [l; w; se; l - se - w]) ps
   | GV1MState po mi re rp => match migrate_v1_mstate po mi re rp with Some (a, b, c, d) => [1; a; b; c; d] | None => [0] end
+  | GV1DStates bkey denoms l =>
+      match migrate_v1_dstates bkey l [] with
+      | Ok st => 1 :: Z.of_nat (length st) ::
+                 flat_map (fun e => fst e :: b2z (fst (fst (snd e))) :: b2z (snd (fst (snd e))) ::
+                                    map (fun d => zsum (map snd (filter (fun c => fst c =? d) (snd (snd e))))) denoms) st
+      | Err => [0] | Panic => [-1]
+      end
   end.
 
 Definition gmismatches (cs : list gcase) : list (Z * Z * list Z) :=
